@@ -28,8 +28,37 @@ BYTES = [0x00, 0x0A, 0x0D, 0x09, 0x20, 0x23, 0x2D, 0x3E, 0x5B, 0x60, 0x7C, 0x80,
          0xF0, 0xFF]
 
 
+# Unicode class sweep: every code point the implementation may classify (digits, numerics, blanks, controls,
+# format characters, fullwidth ASCII look-alikes, boundary scalars) in every syntactic trigger position
+UNI_TEMPLATES = ["{c}. x", "{c}) x", "1{c}. x", "{c}1. x", "a\n{c}. x", "#{c}x", "# x {c}#", "{c}{c}{c}", "- {c}", "-{c}x",
+                 ">{c}x", "[a]:{c}/u", "[a]: /u{c}'t'", "[{c}]: /u\n\n[{c}]", "```{c}", "```x{c}y\nz", "<{c}", "<a{c}b>", "<a {c}=1>",
+                 "&#{c};", "&{c};", "&#x{c};", "[x]({c})", "[x](u{c}'t')", "[x](<{c}>)", "*{c}a*", "a{c}*b*", "*a{c}*",
+                 "_{c}a_b", "|{c}|\n|-|", "|a|\n|{c}-|", "{c}|a|\n|-|", "`{c}`", "` {c} `", "\\{c}", "a{c}{c}\nb", "a \\{c}\nb",
+                 "<http://{c}>", "<x@{c}.y>", "http://a.b/{c}", "www.{c}.b", "\"{c}\"", "'{c}'", "{c}--{c}", "({c})", "~~{c}~~",
+                 "![{c}]({c})", "    {c}", "\t{c}", "{c}\n===", "{c}\n---", "***{c}", "- a\n{c}- b", "1. a\n{c}2. b"]
+
+
+def uni_chars():
+    import unicodedata
+
+    out = []
+    for cp in range(0x80, 0x110000):
+        if 0xD800 <= cp <= 0xDFFF:
+            continue
+        ch = chr(cp)
+        cat = unicodedata.category(ch)
+        if (ch.isdigit() or ch.isdecimal() or ch.isnumeric() or ch.isspace() or cat in ("Zs", "Zl", "Zp", "Cc", "Cf")
+                or 0xFF01 <= cp <= 0xFF5E):
+            out.append(cp)
+    out += [0x7F, 0x300, 0x20DD, 0xD7FF, 0xE000, 0xFDD0, 0xFFFC, 0xFFFD, 0xFFFE, 0xFFFF, 0x1FFFE, 0x10FFFF, 0x130, 0x131,
+            0x1E9E, 0xDF, 0x3A3, 0x3C2]
+    out += list(range(0, 0x20))
+    return sorted(set(out))
+
+
 def bounds(tier):
     d = I.describe(tier)
+    d["unicode_sweep"] = {"templates": len(UNI_TEMPLATES), "code_points": len(uni_chars())}
     d["cli_bytes"] = {"alphabet": [hex(b) for b in BYTES], "max_len": 3 if tier == "thorough" else 2}
     return d
 
@@ -38,6 +67,9 @@ def shards(tier):
     sh = I.shards(tier)
     sh.append(("types",))
     sh.append(("nolinkifier",))
+    ucs = uni_chars()
+    for i in range(0, len(ucs), 100):
+        sh.append(("unicode", i, min(len(ucs), i + 100)))
     for b in BYTES:
         sh.append(("cli", b, 3 if tier == "thorough" else 2))
     n = len(S.corpus_seeds())
@@ -145,6 +177,20 @@ def run_shard(sh, acc):
             for i in range(len(raw) + 1):
                 if i == len(raw) or (raw[i] & 0xC0) == 0x80:
                     _cli_one(raw[:i], acc)
+        return
+    if kind == "unicode":
+        _, lo, hi = sh
+        for c in (I.CM_T, I.JS_TL):
+            md = C.build(c)
+            for cp in uni_chars()[lo:hi]:
+                ch = chr(cp)
+                for t in UNI_TEMPLATES:
+                    src = t.replace("{c}", ch)
+                    acc.case()
+                    r = _one(md, "doc", src, acc, c)
+                    if r:
+                        acc.violation(kind, r[0], {"cfg": c, "mode": "doc", "src": src}, r[1])
+        acc.sample(kind, {"cfg": I.CM_T, "mode": "doc", "src": "\u00b2. x"}, 1)
         return
     last = None
     md = None
